@@ -1747,6 +1747,14 @@ class Data(BaseCartesianData):
             if isinstance(subset_state, SliceSubsetState) and view is None:
                 mask = None
                 data = subset_state.to_array(self, cid)
+                if axis is not None:
+                    # The result only covers the sliced region, so it needs to
+                    # be padded back to the full shape at the end.
+                    if subset_state.reference_data is self:
+                        subarray_slices = tuple(subset_state.slices)
+                    elif subset_state.reference_data in self.pixel_aligned_data:
+                        order = self.pixel_aligned_data[subset_state.reference_data]
+                        subarray_slices = tuple(subset_state.slices[idx] for idx in order)
             else:
                 mask = subset_state.to_mask(self, view)
 
